@@ -165,13 +165,18 @@ def run(rep, tier, seed):
                 for y in range(area[0][0], area[0][1] + 1):
                     for x in range(area[1][0], area[1][1] + 1):
                         items.append((area, (y, x)))
-    # one job (= one fresh process) per (width, offset kind): all heights and ALL origins of an area are queried in the
+    # one job (= one fresh process) per (width, offset kind, pair of consecutive heights): ALL origins of an area are queried in the
     # same process, in order, so that cache-key collisions between neighbouring origins / areas are exercised
     groups = {}
     for it in items:
         area = it[0]
-        groups.setdefault((area[1][1] - area[1][0] + 1, area[0][0] == 0 and area[1][0] == 0), []).append(it)
+        hgt = area[0][1] - area[0][0] + 1
+        # heights 2k and 2k+1 together (their offset areas start at -(2k-1) and -2k: -1/-2, -3/-4 ... neighbours)
+        groups.setdefault((area[1][1] - area[1][0] + 1, area[0][0] == 0 and area[1][0] == 0, hgt // 2), []).append(it)
     jobs = [(g, 'fancy') for g in sorted(groups.values(), key=len, reverse=True)]
+    # one "cache pressure" job: more distinct queries than the cache holds (128), then all of them again, oldest first
+    big = [it for it in items if (it[0][0][1] - it[0][0][0] + 1, it[0][1][1] - it[0][1][0] + 1) in ((7, 7), (6, 7), (7, 6)) and it[0][0][0] != 0]
+    jobs.insert(0, (big, 'fancy'))
     if tier != 'quick':
         small = [it for it in items if (it[0][0][1] - it[0][0][0] + 1) <= 5 and (it[0][1][1] - it[0][1][0] + 1) <= 5]
         jobs += [(small[i::64], 'plain') for i in range(64)]
@@ -181,10 +186,12 @@ def run(rep, tier, seed):
         rn += n
         fans += f
         fails.extend(fl)
-    for h, w in ((15, 15), (7, 31), (31, 7), (3, 63), (1, 127), (1, 255), (15, 31), (9, 12)):
-        m = judge_large_floor(h, w)
-        if m:
-            fails.append({'kind': 'large_floor', 'h': h, 'w': w, 'message': m, 'sig': {'fn': 'raytracing_all_floor'}, 'simplicity': 0})
+    def floor_work(hw):
+        m = judge_large_floor(*hw)
+        return [{'kind': 'large_floor', 'h': hw[0], 'w': hw[1], 'message': m, 'sig': {'fn': 'raytracing_all_floor'}, 'simplicity': 0}] if m else []
+
+    for fl in pmap(floor_work, [(15, 15), (7, 31), (31, 7), (3, 63), (1, 127), (1, 255), (15, 31), (9, 12)]):
+        fails.extend(fl)
     seqs = [list(seq) for d in range(1, 5) for seq in itertools.product(range(len(QUERIES)), repeat=d)]
     hn = len(seqs)
 
